@@ -76,7 +76,10 @@ THEOREMS = [
     'C14.fsbEntry_value_error_iff', 'C14.gen_free_surface_basis_correct',
     # the cut is between atomic planes for EVERY atom (not only the kept layer representatives) and in the BUILT system
     'C14.roundKey_close', 'C14.shift_between_planes_all_atoms', 'C14.surface_cut_between_planes',
-    'C14.surface_cut_between_planes_any',
+    'C14.surface_cut_between_planes_any', 'C14.gen_cutRefuses_eq_model',
+    # the facts about C04's / C16's models that C14 uses, proved from the model files only (Proofs/C14_C04, C14_C16)
+    'C14.c04_supersize_length', 'C14.c04_replicaPos_eq', 'C14.c04_superBox_volume', 'C14.c16_idx_cross_parallel',
+    'C14.c16_normalOf_eq', 'C14.c16_normal_is_reciprocal',
 ]
 PARTIAL = {
     'isclose_as_exact_zero': 'np.isclose(x, 0) / np.isclose(mag, b_mag) / the arccos-based angle comparisons are modelled '
@@ -169,8 +172,9 @@ TRUSTED = ['the reader in translate(): which Lean expression each recognised sou
            'Parallel / AntiParallel; float quotient cast by dtype=int -> Int.tdiv; np.abs / np.sign / np.lcm / np.gcd on '
            'ints -> natAbs / Int.sign / lcm / gcd); unrecognised forms raise TranslationError',
            'numpy inside the implementation run', 'fractions.Fraction / numpy site census oracles in search()',
-           "C16's theorems idx_cross_parallel / normal_is_reciprocal (imported, audited there), C05_Lemmas' "
-           'atom_reconstruct, C04.replicaPos_eq / supersize_length (imported)']
+           "C05_Lemmas' atom_reconstruct / cartToRel_relToCart and C04_Lemmas' replicaPos_eq_aux / length_flatMap_range_const "
+           '(imported helper files that do not depend on a regenerated source tie); the C16 / C04 facts used are re-proved '
+           'in Proofs/C14_C16.lean / C14_C04.lean from the model files and audited here']
 
 CUTS = ('a', 'b', 'c')
 SETTINGS = ('p', 'f', 'i', 'a', 'b', 'c', 't1', 't2')
@@ -3410,8 +3414,20 @@ def o_fsb(ctx, job, exact, impl=None, report=True):
         if report:
             ctx.violate('fsb:' + clause, f'free_surface_basis({list(hkl)}, cutboxvector={cut!r}, maxindex={n}, '
                         f'conventional_setting={setting!r}) on box {vects}: {what}', rep)
-    hkl3 = list(hkl) if len(hkl) == 3 else [hkl[0], hkl[1], hkl[3]]
     hexbox = _hex_like(vects)
+    if len(hkl) not in (3, 4):
+        # documented: 'Invalid hkl indices: must be 3 values or 4'
+        if impl[0] != 'err' or impl[1] != 'value':
+            bad('refusal', f'{len(hkl)} plane indices were not refused with a ValueError: {impl[:2]}')
+        return failed
+    hkl3 = list(hkl) if len(hkl) == 3 else [hkl[0], hkl[1], hkl[3]]
+    # documented refusals of the entry point that do not depend on the searches: Miller-Bravais indices with a
+    # non-hexagonal box / with h + k + i != 0, Miller-Bravais output requested for a non-hexagonal box
+    must_refuse = ((len(hkl) == 4 and (not hexbox or hkl[0] + hkl[1] + hkl[2] != 0)) or (rh is True and not hexbox))
+    if must_refuse and impl[0] != 'err':
+        bad('refusal', f'return_hexagonal={rh}: a documented refusal (Miller-Bravais indices / output with a '
+            f'non-hexagonal box, or h + k + i != 0) did not happen; returned {impl[1]}')
+        return failed
     if impl[0] == 'err':
         want_value = (all(x == 0 for x in hkl3) or (len(hkl) == 4 and (not hexbox or hkl[0] + hkl[1] + hkl[2] != 0))
                       or (bool(rh) and not hexbox))
@@ -3861,6 +3877,14 @@ def search(ctx, broken):
                 hexE = [v for nm, v in ex if nm == 'hexagonal'][0]
                 hkil = (hkl[0], hkl[1], -(hkl[0] + hkl[1]), hkl[2])
                 jobs.append(((hexE, hkil, cut, _capped(hkl, None, cap), None, rng.choice([None, True, False])), True))
+        # the form matrix of the entry point: 2..5 indices x hexagonal or not x return_hexagonal
+        hexE = [v for nm, v in ex if nm == 'hexagonal'][0]
+        for nm, bx in (('hexagonal', hexE), rng.choice([e for e in ex if e[0] != 'hexagonal']), rng.choice(fl)):
+            if nm == 'hexagonal' and bx is not hexE:
+                continue
+            for idx in ((1, 1), (1, 0, 2), (2, -1, -1, 1), (1, 2, -2, 1), (1, 0, -1, 0, 2)):
+                for rh in (None, True, False):
+                    jobs.append(((bx, idx, rng.choice(CUTS), 3, None, rh), bx is hexE or any(bx is e[1] for e in ex)))
         impls = _pmap(_impl_fsb, [j for j, _ in jobs])
         nf = 0
         for (job, exact), impl in zip(jobs, impls):
